@@ -10,6 +10,9 @@ ND_PD = [0.7, 0.3]
 
 
 def src(id, n=3, blocking=True, iat=None, kind="call", pol="FIRST_AVAILABLE", flow="item"):
+    if isinstance(iat, (int, float)) and not isinstance(iat, bool):
+        # a plain number: the library's constant inter-arrival time (the source never runs dry)
+        return {"t": "source", "id": id, "iat": iat, "blocking": blocking, "out_pol": pol, "flow": flow}
     return {"t": "source", "id": id, "iat": (kind, iat or IAT, n), "blocking": blocking, "out_pol": pol, "flow": flow}
 
 
@@ -165,6 +168,16 @@ def core_lines(tier):
     out.append(line("bufF", "buf0", until=1.5, setup=1.5))      # ... and exactly at its end
     out.append(line("bufF", "buf0", iat=[0, 1], n=4))
     out.append(line("buf0", "bufF", iat=[0, 2], pd=[1, 2], n=3, cap1=2))
+    # constant-number inter-arrival times (the commonest way to configure a source), including the default 0 of a blocking source
+    for iat, sb, until in ((1, True, 8), (0.5, True, 6), (0.7, False, 6), (0, True, 6), (2, False, 9)):
+        c = line("bufF", "buf0", sb=sb, until=until)
+        c["nodes"][0] = src("S", blocking=sb, iat=iat)
+        c["tag"] = c["tag"][:-1] + ",iat=%s)" % iat
+        out.append(c)
+    c = diamond(until=8)
+    c["nodes"][0] = src("S1", iat=1); c["nodes"][1] = src("S2", iat=1.5)
+    c["tag"] = c["tag"][:-1] + ",iat const)"
+    out.append(c)
     return out
 
 
@@ -243,6 +256,22 @@ def comb_series(r1=(1, 1), r2=(1, 2), until=24, n_pal=2, order="nodes_first", bl
             "tag": "comb_series(%s,%s,%s,b%d)" % (list(r1), list(r2), order, blocking)}
 
 
+def comb_fan(out_pol="ROUND_ROBIN", blocking=True, n_out=2, until=20, slow=True, recipe=(1, 1)):
+    """combiner with several out-edges (its own out-edge policy under test), slow consumers behind them"""
+    nodes = [src("SP", n=4 if blocking else 7, flow="pallet", iat=[1, 0.5]), src("SI", n=6 if blocking else 9, iat=[1, 0.5]),
+             {"t": "combiner", "id": "C", "recipe": list(recipe), "pd": ("call", [1, 0]), "blocking": blocking, "out_pol": out_pol}]
+    edges = [buf("P", "SP", "C", cap=2), buf("I1", "SI", "C", cap=2)]
+    for j in range(n_out):
+        if slow:
+            nodes += [mach("D%d" % j, pd=[3, 2]), sink("K%d" % j)]
+            edges += [buf("O%d" % j, "C", "D%d" % j, cap=1), buf("Z%d" % j, "D%d" % j, "K%d" % j, cap=1)]
+        else:
+            nodes.append(sink("K%d" % j))
+            edges.append(buf("O%d" % j, "C", "K%d" % j, cap=1))
+    return {"nodes": nodes, "edges": edges, "until": until, "family": "comb_fan",
+            "tag": "comb_fan(%s,b%d,out%d,slow%d)" % (_p(out_pol), blocking, n_out, slow)}
+
+
 def comb_split_slow(recipe=(1, 2), out_pol="ROUND_ROBIN", sblocking=False, blocking=True, until=20):
     """splitter feeding two slow machines: its out-edges are full when items and pallets are pushed"""
     c = comb_split(recipe, sinks=2, out_pol=out_pol, sblocking=sblocking, blocking=blocking, until=until, n_pal=3, n_item=6)
@@ -281,6 +310,12 @@ def splitters(tier):
         out.append(pallet_split(in_pol=in_pol, n_in=2, n_out=3, slow=False, out_pol="ROUND_ROBIN"))
     out.append(pallet_split(in_pol="ROUND_ROBIN", n_in=2, n_out=2, out_pol="FIRST_AVAILABLE", order="reversed"))
     out.append(pallet_split(iat=[0, 1], slow=True))
+    for ek in ("cconvA", "sconvA", "fleet"):
+        for pol in ("FIRST_AVAILABLE", "ROUND_ROBIN"):
+            c = pallet_split(in_pol=pol, n_in=2, n_out=1, slow=False, until=20)
+            c["edges"] = [EDGE_KINDS[ek](e["id"], e["src"], e["dst"], 2) if e["id"] == "P1" else e for e in c["edges"]]
+            c["tag"] = c["tag"][:-1] + ",P1=%s)" % ek
+            out.append(c)
     # splitter fed by a combiner, non-default in-edge policy on the splitter
     for pol in ("ROUND_ROBIN", 0):
         c = comb_split_slow((1, 2), out_pol="FIRST_AVAILABLE", sblocking=True)
@@ -324,6 +359,11 @@ def combiners(tier):
         for sb in (False, True):
             out.append(comb_split_slow((1, 2), out_pol=pol, sblocking=sb))
     out.append(comb_split_slow((1, 1), out_pol="ROUND_ROBIN", sblocking=False, blocking=False))
+    for pol in ("ROUND_ROBIN", "FIRST_AVAILABLE", 1, ("call",), ("gen",), "RANDOM"):
+        for b in (True, False):
+            out.append(comb_fan(pol, b))
+    out.append(comb_fan("FIRST_AVAILABLE", True, n_out=3))
+    out.append(comb_fan("ROUND_ROBIN", True, n_out=3, slow=False))
     out.append(comb_series())
     out.append(comb_series((1, 2), (1, 1)))
     out.append(comb_series(order="reversed"))
@@ -473,6 +513,18 @@ def invalid_configs(tier):
     c = base(); c["edges"][0] = edge("fleet", "E1", "S", "M", cap=0, delay=2, transit=1); c["why"] = "fleet capacity 0"; out.append(c)
     c = base(); c["edges"][0] = edge("fleet", "E1", "S", "M", cap=2, delay=2, transit=-1); c["why"] = "negative fleet transit delay"; out.append(c)
     c = base(); c["edges"][0] = edge("sconv", "E1", "S", "M", cap=0, delay=1, acc=1); c["why"] = "slotted conveyor capacity 0"; out.append(c)
+    # parameters of the wrong kind altogether: whatever the component does with them, the model must not be simulated silently
+    c = base(); c["edges"][0]["delay"] = "abc"; c["why"] = "buffer delay of type str"; out.append(c)
+    c = base(); c["edges"][0] = edge("fleet", "E1", "S", "M", cap=2, delay="abc", transit=1); c["why"] = "fleet delay of type str"; out.append(c)
+    c = base(); c["nodes"][1]["pd"] = "slow"; c["why"] = "processing delay of type str"; out.append(c)
+    c = base(); c["nodes"][1]["pd"] = None; c["why"] = "processing delay None"; out.append(c)
+    c = base(); c["nodes"][0]["iat"] = "often"; c["why"] = "inter-arrival time of type str"; out.append(c)
+    c = base(); c["nodes"][1]["setup"] = "x"; c["why"] = "set-up time of type str"; out.append(c)
+    c = base(); c["nodes"][1]["in_pol"] = "FIRST"; c["why"] = "unknown in-edge policy name"; out.append(c)
+    c = base(); c["nodes"][1]["out_pol"] = "SOMETIMES"; c["why"] = "unknown out-edge policy name"; out.append(c)
+    c = base(); c["nodes"][0]["out_pol"] = "first_available"; c["why"] = "source policy name in lower case"; out.append(c)
+    c = base(); c["nodes"][1]["out_pol"] = None; c["why"] = "out-edge policy None"; out.append(c)
+    c = base(); c["nodes"][1]["in_pol"] = 0.5; c["why"] = "in-edge policy of type float"; out.append(c)
     for i, x in enumerate(out):
         x["expect_error"] = True
         x["expect_props"] = ["C20", "C15"] if "index" in x["why"] or "answers" in x["why"] or "constant" in x["why"] else ["C20"]
